@@ -20,6 +20,58 @@ static ATTRS: [AttrName; 1] = [AttrName { qname: b"x", local: b"x", ns: ns::UNBO
 
 const B: u8 = ns::BASE;
 
+/// Summary of `<Capability as FromStr>::from_str` for the two capability texts of this harness
+/// (identified by pointer: they are the table's `&'static str`s); the real function — URI
+/// validation by iri-string plus the component match — is checked on concrete URIs in
+/// `c12_capability_from_str`.
+pub fn stub_capability_from_str(s: &str) -> Result<Capability, ReadError> {
+    if std::ptr::eq(s.as_ptr(), TEXTS[1].raw.as_ptr()) {
+        Ok(Capability::Base(Base::V1_0))
+    } else if std::ptr::eq(s.as_ptr(), TEXTS[2].raw.as_ptr()) {
+        Ok(Capability::Base(Base::V1_1))
+    } else {
+        Ok(Capability::Candidate)
+    }
+}
+
+/// C12: the real `Capability::from_str` on every standard capability URI, on the Junos one, on
+/// an unknown URI and on a string that is not a URI (all concrete).
+#[kani::proof]
+#[kani::unwind(80)]
+fn c12_capability_from_str() {
+    use std::str::FromStr;
+    let cases: [(&str, u8); 8] = [
+        ("urn:ietf:params:netconf:base:1.0", 0),
+        ("urn:ietf:params:netconf:base:1.1", 1),
+        ("urn:ietf:params:netconf:capability:candidate:1.0", 2),
+        ("urn:ietf:params:netconf:capability:xpath:1.0", 3),
+        ("urn:ietf:params:netconf:capability:url:1.0?scheme=http,ftp", 4),
+        ("http://xml.juniper.net/netconf/junos/1.0", 5),
+        ("urn:ietf:params:xml:ns:netconf:base:1.0", 6),
+        ("not a uri", 7),
+    ];
+    let mut i = 0;
+    while i < 8 {
+        let r = Capability::from_str(cases[i].0);
+        let ok = match (&r, cases[i].1) {
+            (Ok(Capability::Base(Base::V1_0)), 0) => true,
+            (Ok(Capability::Base(Base::V1_1)), 1) => true,
+            (Ok(Capability::Candidate), 2) => true,
+            (Ok(Capability::XPath), 3) => true,
+            (Ok(Capability::Url(s)), 4) => s.len() == 2,
+            #[cfg(feature = "junos")]
+            (Ok(Capability::JunosXmlManagementProtocol), 5) => true,
+            (Ok(Capability::Unknown(_)), 6) => true,
+            (Err(_), 7) => true,
+            _ => false,
+        };
+        assert!(ok, "C12: capability URI parsed into the wrong capability");
+        std::mem::forget(r);
+        i += 1;
+    }
+    kani::cover!(true, "reached");
+}
+
 /// C12: `ServerHello::read_xml` over every hello built from: capabilities element present /
 /// absent with the :base:1.0 and :base:1.1 capabilities each present / absent; session-id
 /// absent, present once or twice, with text from {1, 4294967295, 0, 4294967296, -1, x}.
@@ -27,6 +79,7 @@ const B: u8 = ns::BASE;
 /// capabilities are those of the hello.
 #[kani::proof]
 #[kani::unwind(8)]
+#[kani::stub(<crate::capabilities::Capability as std::str::FromStr>::from_str, stub_capability_from_str)]
 fn c12_server_hello_reader() {
     tape::set_tables(&NAMES, &TEXTS, &ATTRS);
     let caps_present: bool = kani::any();
